@@ -12,6 +12,12 @@ thread_local! {
     static LOCAL_ID_GENERATOR: Cell<(u32, u32)> = Cell::new((rand::random(), 0))
 }
 
+/// Sets the calling thread's span id generator (verification hook).
+#[cfg(fastrace_verif)]
+pub fn verif_set_local_id(prefix: u32, suffix: u32) {
+    LOCAL_ID_GENERATOR.with(|g| g.set((prefix, suffix)));
+}
+
 /// An identifier for a trace, which groups a set of related spans together.
 #[derive(Copy, Clone, Debug, Eq, PartialEq, Hash, Default)]
 pub struct TraceId(pub u128);
